@@ -86,12 +86,12 @@ Theorem C06_rau_outputs_refuted_before_fix :
   changed original_cfg (w_pre ++ [IOAppend KOut 0 0]) (VReplaceAllUses 0 1 true) = true.
 Proof. vm_compute. reflexivity. Qed.
 Print Assumptions C06_rau_outputs_refuted_before_fix.
-(* OPEN site: initializers.update({ok, rejected}) keeps `ok` registered (inherited MutableMapping.update) *)
-Theorem C06_initupdate_refuted :
-  changed current_cfg [NewValue 0 (Some (NUser 0)); NewValue 1 (Some (NUser 1)); GraphNew 0 [] [] [] []; GraphNew 1 [1] [] [] []]
+(* repaired by /repo 4f0fb1e: initializers.update({ok, rejected}) kept `ok` registered (inherited MutableMapping.update) *)
+Theorem C06_initupdate_refuted_before_fix :
+  changed original_cfg [NewValue 0 (Some (NUser 0)); NewValue 1 (Some (NUser 1)); GraphNew 0 [] [] [] []; GraphNew 1 [1] [] [] []]
           (InitUpdate 0 [(Some (NUser 0), 0); (Some (NUser 1), 1)]) = true.
 Proof. vm_compute. reflexivity. Qed.
-Print Assumptions C06_initupdate_refuted.
+Print Assumptions C06_initupdate_refuted_before_fix.
 Theorem C06_graphnew_refuted_before_fix : changed original_cfg w_pre (GraphNew 2 [0; 1] [] [] []) = true.
 Proof. vm_compute. reflexivity. Qed.
 Print Assumptions C06_graphnew_refuted_before_fix.
